@@ -184,6 +184,21 @@ func blockCandidates(m *ledger.Model, inst func(string) *coin.Transaction) []blo
 		add("double-spend-in-block[pay-A2-C,merge-A:second-input]", mkBlock(m, []coin.Transaction{*c, *d}, 10, idP.Sec, nil))
 		add("double-spend-in-block[merge-A,pay-A2-C]", mkBlock(m, []coin.Transaction{*d, *c}, 10, idP.Sec, nil))
 	}
+	// three transactions: the FIRST and the LAST spend the same output, an unrelated valid one stands between them (pairwise
+	// checks that only look at neighbours miss it); and three unrelated valid ones in both directions
+	if a != nil && b != nil && m.HardInBlock(a) == "" && m.HardInBlock(b) == "" {
+		for _, mid := range []string{"pay-A-B", "pay-B-A", "pay-A2-C"} {
+			if x := inst(mid); x != nil && m.HardInBlock(x) == "" {
+				add("double-spend-in-block3[pay-G-A,"+mid+",pay-G-B]", mkBlock(m, []coin.Transaction{*a, *x, *b}, 10, idP.Sec, nil))
+				add("double-spend-in-block3[pay-G-B,"+mid+",pay-G-A]", mkBlock(m, []coin.Transaction{*b, *x, *a}, 10, idP.Sec, nil))
+				break
+			}
+		}
+		if x, y := inst("pay-A-B"), inst("pay-B-A"); x != nil && y != nil && m.HardInBlock(x) == "" && m.HardInBlock(y) == "" {
+			add("valid3[pay-G-A,pay-A-B,pay-B-A]+10s", mkBlock(m, []coin.Transaction{*a, *x, *y}, 10, idP.Sec, nil))
+			add("valid3[pay-B-A,pay-A-B,pay-G-A]+1h", mkBlock(m, []coin.Transaction{*y, *x, *a}, 3600, idP.Sec, nil))
+		}
+	}
 	add("same-txn-twice", mkBlock(m, []coin.Transaction{t1, t1}, 10, idP.Sec, nil))
 	// second transaction spends an output created by the first one in the same block
 	{
